@@ -109,10 +109,11 @@ def obsT : Obs → Term
   | .decodePanic => tag "decode" [sym "panic"]
   | .nlris l => tag "nlris" (l.map nlriObsT)
   | .addRefused => tag "grpc" [sym "add-refused"]
-  | .listed n ys v => tag "grpc" [tag "listed" [apiNlriT n, list (ys.map apiAttrT)],
+  | .listed n ys v k => tag "grpc" [tag "listed" [apiNlriT n, list (ys.map apiAttrT)],
       tag "validation" [match v with
         | none => sym "none" | some .notFound => sym "not-found" | some .valid => sym "valid"
-        | some .invalidAsn => sym "invalid-asn" | some .invalidLen => sym "invalid-length"]]
+        | some .invalidAsn => sym "invalid-asn" | some .invalidLen => sym "invalid-length"],
+      tag "after-delete" [nat k]]
   | .listPanic => tag "grpc" [sym "panic"]
   | .exploreOk => tag "x" [sym "ok"]
   | .exploreFail w => tag "x" [sym "fail", sym w]
@@ -247,12 +248,13 @@ def caseOf? : Term → Option Case
   | .list [.atom "attr-api", x] => (apiAttrOf? x).map .attrApi
   | .list [.atom "nlri-wire", f, b] => do pure (.nlriWire (← famOf? f) (← asBytes? b))
   | .list [.atom "nlri-api", x] => (apiNlriOf? x).map .nlriApi
-  | .list [.atom "grpc", x, as] => do pure (.grpc (← apiNlriOf? x) (← asListOf? apiAttrOf? as) [])
+  | .list [.atom "grpc", x, as] => do pure (.grpc (← apiNlriOf? x) (← asListOf? apiAttrOf? as) [] false)
+  | .list [.atom "grpc-vrf", x, as] => do pure (.grpc (← apiNlriOf? x) (← asListOf? apiAttrOf? as) [] true)
   | .list [.atom "grpc", x, as, .list (.atom "vrps" :: vs)] => do
       let vrps ← vs.mapM fun t => match t with
         | .list [a, l, m, n] => do pure { addr := (← asNat? a), len := (← asNat? l), maxLen := (← asNat? m), asn := (← asNat? n) : Vrp }
         | _ => none
-      pure (.grpc (← apiNlriOf? x) (← asListOf? apiAttrOf? as) vrps)
+      pure (.grpc (← apiNlriOf? x) (← asListOf? apiAttrOf? as) vrps false)
   | .list (.atom "x" :: .atom kind :: _) => some (.explore kind)
   | _ => none
 
@@ -278,11 +280,12 @@ def obsOf? : Term → Option Obs
   | .list (.atom "nlris" :: l) => (l.mapM nlriObsOf?).map .nlris
   | .list [.atom "grpc", .atom "add-refused"] => some .addRefused
   | .list [.atom "grpc", .atom "panic"] => some .listPanic
-  | .list [.atom "grpc", .list [.atom "listed", n, ys], .list [.atom "validation", .atom v]] => do
+  | .list [.atom "grpc", .list [.atom "listed", n, ys], .list [.atom "validation", .atom v],
+      .list [.atom "after-delete", k]] => do
       let val ← (match v with
         | "none" => some none | "not-found" => some (some RState.notFound) | "valid" => some (some .valid)
         | "invalid-asn" => some (some .invalidAsn) | "invalid-length" => some (some .invalidLen) | _ => none)
-      pure (.listed (← apiNlriOf? n) (← asListOf? apiAttrOf? ys) val)
+      pure (.listed (← apiNlriOf? n) (← asListOf? apiAttrOf? ys) val (← asNat? k))
   | .list [.atom "x", .atom "ok"] => some .exploreOk
   | .list [.atom "x", .atom "fail", .atom w] => some (.exploreFail w)
   | .list [.atom "bad-case"] => some .unmodelled
